@@ -8,8 +8,8 @@ Close's pool branch, NewSocket/GetSocket).
 
 Conventions: a Go slice `s` is split into its visible part `s[:len]` (`live`) and the slots
 `s[len:cap]` (`stale`) whose old contents are still in memory. A Go panic is an explicit outcome
-(`Ret.panic`), the state left behind by a panicking operation is the state the Go object is in when
-the panic starts to unwind. Core Lean only (linked into the driver).
+(`Ret.panic`; the only one left is `Swap().Store` on a context whose swap is nil — `ParseBytes` has
+no panic point since `hex2intTable` has 256 entries). Core Lean only (linked into the driver).
 -/
 import Teleport.Model.RawProto
 namespace Teleport
@@ -20,54 +20,39 @@ abbrev KV := Args.KV
 
 /-! ## byte buffers of one argsKV slot -/
 
-/-- prepend a byte to a partial decoding result. -/
-def consP (c : UInt8) (r : Bytes × Bool) : Bytes × Bool := (c :: r.1, r.2)
-
-/-- `decodeArgAppend(dst[:0], src, true)`: the bytes appended before the function returned or
-    panicked, and whether it panicked (`hexbyte2int(0xff)`: index out of range in a 255-entry table). -/
-def unquoteF : Nat → Bytes → Bytes × Bool
-  | 0, _ => ([], false)
-  | _, [] => ([], false)
+/-- `decodeArgAppend(dst[:0], src, true)` (`utils/args.go`, `hexbyte2int` over the 256-entry
+    `hex2intTable` of `utils/bytesconv.go`): the bytes appended. The function returns on every input
+    — there is no panic point — so the slice header of the slot is always updated. -/
+def unquoteF : Nat → Bytes → Bytes
+  | 0, _ => []
+  | _, [] => []
   | fuel + 1, c :: rest =>
     if c == 37 then
       match rest with
       | h1 :: h2 :: rest' =>
-        match hexVal h1, hexVal h2 with
-        | some x1, some x2 =>
-          if x1 < 0 || x2 < 0 then consP c (unquoteF fuel rest)
-          else consP (x1 * 16 + x2).toNat.toUInt8 (unquoteF fuel rest')
-        | _, _ => ([], true)
-      | _ => (c :: rest, false)
-    else if c == 43 then consP 32 (unquoteF fuel rest)
-    else consP c (unquoteF fuel rest)
+        if hexValFixed h1 < 0 || hexValFixed h2 < 0 then c :: unquoteF fuel rest
+        else (hexValFixed h1 * 16 + hexValFixed h2).toNat.toUInt8 :: unquoteF fuel rest'
+      | _ => c :: rest
+    else if c == 43 then 32 :: unquoteF fuel rest
+    else c :: unquoteF fuel rest
 
 /-- fuel = input length (every step consumes at least one byte). -/
-def unquoteP (b : Bytes) : Bytes × Bool := unquoteF b.length b
-
-/-- what is visible of a buffer with visible content `old` after `p` was appended to `old[:0]` in
-    place but the slice header was not updated (the append sequence panicked before the assignment):
-    the first `len old` bytes of the backing array. Independent of the capacity. -/
-def overlay (old p : Bytes) : Bytes := p.take old.length ++ old.drop p.length
+def unquoteP (b : Bytes) : Bytes := unquoteF b.length b
 
 /-- outcome of one `argsScanner.next(kv)` on a non-empty buffer. -/
 structure NextOut where
   kv       : KV
   rest     : Bytes
-  panicked : Bool
 deriving DecidableEq, Repr
 
-/-- `argsScanner.next(kv)` where `*kv` currently holds `old` (a zero slot or a stale one). -/
-def scanNext (old : KV) (b : Bytes) : NextOut :=
+/-- `argsScanner.next(kv)` where `*kv` currently holds `_old` (a zero slot or a stale one): both
+    `kv.key` and `kv.value` are assigned on every path (`decodeArg(kv.key[:0], …)`,
+    `kv.value = kv.value[:0]`), so the previous content is never visible afterwards. -/
+def scanNext (_old : KV) (b : Bytes) : NextOut :=
   let rest := (Args.splitAmp b).2.getD []
   match Args.splitEq (Args.splitAmp b).1 with
-  | (k, none) =>
-    let dk := unquoteP k
-    if dk.2 then ⟨(overlay old.1 dk.1, old.2), rest, true⟩ else ⟨(dk.1, []), rest, false⟩
-  | (k, some v) =>
-    let dk := unquoteP k
-    if dk.2 then ⟨(overlay old.1 dk.1, old.2), rest, true⟩ else
-    let dv := unquoteP v
-    if dv.2 then ⟨(dk.1, overlay old.2 dv.1), rest, true⟩ else ⟨(dk.1, dv.1), rest, false⟩
+  | (k, none) => ⟨(unquoteP k, []), rest⟩
+  | (k, some v) => ⟨(unquoteP k, unquoteP v), rest⟩
 
 /-! ## utils.Args -/
 
@@ -143,34 +128,29 @@ def copyFrom (dst : PArgs) (src : List KV) : PArgs :=
 def nonEmptyKV (kv : KV) : Bool := !(kv.1.isEmpty && kv.2.isEmpty)
 
 /-- the loop of `ParseBytes`. `kept` = slots completed so far, `cur` = content of the slot `kv`
-    points to, `stale` = slots behind it. Result: (kept, cur, stale, panicked). Fuel = len b + 1. -/
-def parseLoop : Nat → List KV → KV → List KV → Bytes → List KV × KV × List KV × Bool
-  | 0, kept, cur, stale, _ => (kept, cur, stale, false)
+    points to, `stale` = slots behind it. Result: (kept, cur, stale). Fuel = len b + 1. -/
+def parseLoop : Nat → List KV → KV → List KV → Bytes → List KV × KV × List KV
+  | 0, kept, cur, stale, _ => (kept, cur, stale)
   | fuel + 1, kept, cur, stale, b =>
-    if b.isEmpty then (kept, cur, stale, false) else
-    if (scanNext cur b).panicked then (kept, (scanNext cur b).kv, stale, true) else
+    if b.isEmpty then (kept, cur, stale) else
     if nonEmptyKV (scanNext cur b).kv then
       parseLoop fuel (kept ++ [(scanNext cur b).kv]) (allocSlot stale).1 (allocSlot stale).2 (scanNext cur b).rest
     else parseLoop fuel kept (scanNext cur b).kv stale (scanNext cur b).rest
 
-/-- `Args.ParseBytes(b)`: the state afterwards and whether it panicked. On a panic `a.args` still
-    includes the slot being written (`allocArg` was assigned, `releaseArg` not reached). -/
-def parseBytes (a : PArgs) (b : Bytes) : PArgs × Bool :=
+/-- `Args.ParseBytes(b)`: the state afterwards (`allocArg` … loop … `releaseArg`: the slot being
+    written when the input ends goes back behind the length). -/
+def parseBytes (a : PArgs) (b : Bytes) : PArgs :=
   let s := allocSlot (a.live ++ a.stale)
   let r := parseLoop (b.length + 1) [] s.1 s.2 b
-  if r.2.2.2 then ({ a with live := r.1 ++ [r.2.1], stale := r.2.2.1 }, true)
-  else ({ a with live := r.1, stale := r.2.1 :: r.2.2.1 }, false)
+  { a with live := r.1, stale := r.2.1 :: r.2.2 }
 
 /-- `Args.Parse(s)`: `a.buf = append(a.buf[:0], s...)` then `ParseBytes(a.buf)`. -/
-def parseStr (a : PArgs) (b : Bytes) : PArgs × Bool := parseBytes { a with buf := b } b
+def parseStr (a : PArgs) (b : Bytes) : PArgs := parseBytes { a with buf := b } b
 
 /-- `Args.QueryString`: `a.buf = a.AppendBytes(a.buf[:0])`. -/
 def queryString (a : PArgs) : PArgs × Bytes := ({ a with buf := Args.query a.live }, Args.query a.live)
 
-/-- does `ParseBytes(b)` panic (a property of `b` alone, see `Lemmas/Pool.parseBytes_panics`). -/
-def parsePanics (b : Bytes) : Bool := (parseLoop (b.length + 1) [] ([], []) [] b).2.2.2
-
-/-- the pairs `ParseBytes(b)` leaves when it does not panic. -/
+/-- the pairs `ParseBytes(b)` leaves. -/
 def parseLive (b : Bytes) : List KV := (parseLoop (b.length + 1) [] ([], []) [] b).1
 
 end PArgs
@@ -208,8 +188,8 @@ def step (a : PArgs) : AOp → PArgs × Ret
   | .del k => (a.del k, .unit)
   | .peek k => (a, .bytes (a.peek k))
   | .has k => (a, .bool (a.has k))
-  | .parse b => ((a.parseBytes b).1, if (a.parseBytes b).2 then .panic else .unit)
-  | .parseStr b => ((a.parseStr b).1, if (a.parseStr b).2 then .panic else .unit)
+  | .parse b => (a.parseBytes b, .unit)
+  | .parseStr b => (a.parseStr b, .unit)
   | .query => (a.queryString.1, .bytes (some a.queryString.2))
   | .reset => (a.reset, .unit)
   | .copyFrom src => (a.copyFrom src, .unit)
@@ -231,13 +211,6 @@ def exec (a : PArgs) : List AOp → PArgs
 def run (a : PArgs) : List AOp → List (Ret × Obs)
   | [] => []
   | op :: ops => ((a.step op).2, obs (a.step op).1) :: run (a.step op).1 ops
-
-/-- an operation whose Go code panics (only `ParseBytes/Parse` can: a `%` followed within two
-    bytes by `0xff`). -/
-def opPanics : AOp → Bool
-  | .parse b => parsePanics b
-  | .parseStr b => parsePanics b
-  | _ => false
 
 end PArgs
 
@@ -486,10 +459,6 @@ def run (reg : Registry) (limit : Nat) (m : PMsg) : List MOp → List (Ret × Ob
 
 end PMsg
 
-def MOp.panics : MOp → Bool
-  | .mdOp op => PArgs.opPanics op
-  | _ => false
-
 /-! ## handlerCtx -/
 
 /-- identity of `c.binding` as the input message's newBodyFunc. -/
@@ -594,11 +563,6 @@ def run (reg : Registry) (limit : Nat) (c : PCtx) : List COp → List (Ret × Ob
   | op :: ops => ((c.step reg limit op).2, obs reg limit (c.step reg limit op).1) :: run reg limit (c.step reg limit op).1 ops
 
 end PCtx
-
-def COp.panics : COp → Bool
-  | .inOp op => op.panics
-  | .outOp op => op.panics
-  | _ => false
 
 /-- `start` is written (by `binding` or `Push`) before every `recordCost` of the sequence;
     `w` = already written. -/
